@@ -135,7 +135,11 @@ def main(argv):
         p.setdefault("path_timeout_s", 20)
     # batches: a worker process handles several small partitions one after the other (fork + result
     # transfer cost about 0.15 s each); long partitions first
-    order = sorted(range(len(parts)), key=lambda i: -parts[i]["budget_s"])
+    import random as _random
+
+    order = list(range(len(parts)))
+    _random.Random(seed).shuffle(order)  # which partitions a wall-budgeted run reaches rotates with the seed
+    order.sort(key=lambda i: -parts[i]["budget_s"])
     nproc = int(os.environ.get("VERIF_JOBS", "16"))
     per_batch = max(1, min(12, len(parts) // (nproc * 6)))
     batches = [order[i:i + per_batch] for i in range(0, len(order), per_batch)]
